@@ -128,7 +128,9 @@ class state_machine_base : public FrontEnd
             // If not, this state is simply a terminate state.
             if (m_forward_fn)
             {
-                m_forward_fn(root_sm, &forward_event);
+                // m_forward_fn reads its argument as the exit pseudostate's event type: convert first
+                const event converted_event(forward_event);
+                m_forward_fn(root_sm, &converted_event);
             }
         }
 
